@@ -323,8 +323,9 @@ def _rs_num(q: Fraction) -> str:
 
 def run_rs_batch(jobs: list[tuple[str, list[tuple]]], work: Path) -> tuple[list[list[tuple]], dict]:
     """-> (outcomes per job per point, stats).  A program rustc rejects is classified from the error
-    codes: E0425 only -> unbound; integer-literal type errors -> ("intlit",); anything else ->
-    illformed.  Rejected programs are removed and the crate is compiled again."""
+    codes: E0425 only -> unbound; integer-literal type errors -> ("intlit", messages, the offending
+    source lines of the program -- so that the oracle can tell WHICH line carries the literal);
+    anything else -> illformed.  Rejected programs are removed and the crate is compiled again."""
     stats = {"rustc_rounds": 0, "rejected": 0}
     if not jobs:
         return [], stats
@@ -373,7 +374,7 @@ def run_rs_batch(jobs: list[tuple[str, list[tuple]]], work: Path) -> tuple[list[
             nlines = jobs[j][0].count("\n") + 1
             line_of_mod.append((s, s + nlines + 1, j))
             idx = s + nlines
-        errs: dict[int, list[tuple[str, str]]] = {}
+        errs: dict[int, list[tuple[str, str, str]]] = {}
         for ln in p.stderr.splitlines():
             mm = re.match(r"main\.rs:(\d+):\d+: error(?:\[(E\d+)\])?: (.*)", ln)
             if not mm:
@@ -381,10 +382,10 @@ def run_rs_batch(jobs: list[tuple[str, list[tuple]]], work: Path) -> tuple[list[
             lno = int(mm.group(1))
             for s, e, j in line_of_mod:
                 if s <= lno <= e:
-                    errs.setdefault(j, []).append((mm.group(2) or "", mm.group(3)))
+                    errs.setdefault(j, []).append((mm.group(2) or "", mm.group(3), all_lines[lno - 1].strip()))
                     break
             else:
-                errs.setdefault(-1, []).append((mm.group(2) or "", mm.group(3)))
+                errs.setdefault(-1, []).append((mm.group(2) or "", mm.group(3), ""))
         if not errs or set(errs) == {-1}:
             for j in alive:
                 verdict[j] = ("other", "rustc failed: " + p.stderr[-300:])
@@ -398,9 +399,9 @@ def run_rs_batch(jobs: list[tuple[str, list[tuple]]], work: Path) -> tuple[list[
             unb = [e for e in es if e[0] == "E0425"]
             rest = [e for e in es if e not in intlit and e not in unb]
             if intlit:
-                verdict[j] = ("intlit", "; ".join(m for _c, m in intlit[:2]))
+                verdict[j] = ("intlit", "; ".join(m for _c, m, _l in intlit[:2]), sorted({l for _c, _m, l in intlit}))
             elif rest:
-                verdict[j] = ("illformed", "; ".join(f"{c} {m}" for c, m in rest[:2]))
+                verdict[j] = ("illformed", "; ".join(f"{c} {m}" for c, m, _l in rest[:2]))
             else:
                 verdict[j] = ("unbound",)
         alive = [j for j in alive if j not in verdict]
